@@ -22,6 +22,28 @@
 using namespace verif;
 namespace fm = foonathan::memory;
 
+// A static-duration object that holds low-level memory for the whole run and gives it back in its destructor. It is
+// constructed AFTER this TU's leak counter objects (they are defined by the headers above) and BEFORE the counters of the
+// library's TUs (linked behind this one), so it is destroyed after some counters and before the last one: the process-wide
+// net must be evaluated when the LAST counter goes away, when this memory is back (C15, stateless allocators).
+struct static_holder
+{
+    void *h, *m, *n;
+    static_holder()
+    {
+        h = fm::heap_allocator().allocate_node(100, 8);
+        m = fm::malloc_allocator().allocate_node(72, 8);
+        n = fm::new_allocator().allocate_node(40, 8);
+    }
+    ~static_holder()
+    {
+        fm::heap_allocator().deallocate_node(h, 100, 8);
+        fm::malloc_allocator().deallocate_node(m, 72, 8);
+        fm::new_allocator().deallocate_node(n, 40, 8);
+    }
+};
+static static_holder g_static_holder;
+
 constexpr bool        cfg_fill  = FOONATHAN_MEMORY_DEBUG_FILL;
 constexpr bool        cfg_leak  = FOONATHAN_MEMORY_DEBUG_LEAK_CHECK;
 constexpr std::size_t cfg_fence = FOONATHAN_MEMORY_DEBUG_FENCE;
